@@ -260,7 +260,8 @@ func (vm *VirtualMachine) resetForNewCode() {
 	vm.sp = -1
 	vm.ip = 0
 	vm.fp = 0
-	vm.halt = 0
+	// vm.halt is not touched here: start() has already cleared it and armed the
+	// watcher for this invocation's context, which may have fired by now
 	vm.activeFrame = nil
 	vm.activeCode = nil
 	vm.loadedCode = map[*compiler.Code]*code{}
